@@ -31,12 +31,12 @@ def run_repo_tests(ctx, select=None):
     return rc
 
 
-def run_puzzle_examples(ctx, budget_s=120, skip=()):
+def run_puzzle_examples(ctx, budget_s=120, skip=(), only=None):
     import cspuz.puzzle as P
 
     t0 = time.time()
-    for m in sorted(pkgutil.iter_modules(P.__path__), key=lambda m: m.name):
-        if m.name in ("util",) or m.name in skip:
+    for k, m in enumerate(sorted(pkgutil.iter_modules(P.__path__), key=lambda m: m.name)):
+        if m.name in ("util",) or m.name in skip or (only is not None and not only(k)):
             continue
         if time.time() - t0 > budget_s:
             ctx.count("realistic.examples_skipped_budget")
